@@ -106,6 +106,7 @@ def run(chk):
     chk.section("getitem-setitem", lambda: access(chk))
     chk.section("unpacking", lambda: unpacking(chk))
     chk.section("place-indices", lambda: place_indices(chk))
+    chk.section("augassign-index", lambda: augassign_index(chk))
     chk.expected_min_obligations = 20
     chk.assumptions += [
         "HUGR op semantics (hugr std collections.array / borrow_arr, prelude): array.get returns Some(a[i]) iff i < n and the unchanged array; array.set returns Right((old, a[i:=v])) iff i < n; borrow_array.borrow(a, i) panics unless i < n and element i is present, yields the element and marks it lent; borrow_array.return panics unless i < n and element i is lent; pop_left/pop_right remove the first/last element; convert itousize reinterprets the 64-bit integer as unsigned",
@@ -546,6 +547,95 @@ try:
     out = {"violates": got != want, "observed": got, "required": want}
 except Exception as ex:
     out = {"violates": "anic" in str(ex), "error": repr(ex)[:300]}
+shutil.rmtree(d, ignore_errors=True)
+print(json.dumps(out))
+'''
+
+
+def augassign_index(chk):
+    """CFGBuilder.visit_AugAssign (cfg/builder.py): `xs[e] += v` is later desugared to
+    `xs[e] = xs[e] + v`, which mentions the index twice; the element read and the element written are
+    the same only if `e` is evaluated once.  Real builder, run on a family of index expressions (names,
+    constants, calls, arithmetic over calls, unary minus, nested subscripts, attribute access, indices of
+    nested subscripts): in the block statement that results, EVERY index of the target's subscript
+    chain is a plain name or a constant (anything else was bound to a temporary first), and the
+    temporaries are assigned, innermost subscript first, before the statement."""
+    import ast as _ast
+    from . import C03 as C3
+    from .common import ast_from_source
+    BM = "guppylang_internals.cfg.builder"
+    e = C3.cfg_engine(chk)
+    e.func_info(BM, "CFGBuilder.visit_AugAssign")
+    INDEX = ["i", "1", "f()", "f() + 1", "2 * f()", "i + 1", "-f()", "ys[f()]", "o.a", "f(g())", "(f(), 1)[0]", "i * j - f()"]
+    targets = [f"xs[{a}]" for a in INDEX] + [f"m[{a}][{b}]" for a, b in (("f()", "g() + 1"), ("i", "f() * 2"), ("f() + g()", "1"), ("ys[f()]", "-g()"))] + ["m[f() + 1].fld[g() - 1]"]
+    n = 0
+    for tgt in targets:
+        def t(it, tgt=tgt):
+            m = e.module(BM)
+            it.ctx.mod_globals(m)["tmp_vars"] = [f"%tmp{k}" for k in range(100)]
+            CB = it.lookup_global(m, "CFGBuilder")
+            fd = ast_from_source(it, f"def fn():\n    {tgt} += v\n").fields["body"][0]
+            cfg = it.call_method(it.call(CB, [], {}), "build", [fd.fields["body"], True, SObj(ClassVal("Globals", builtin=True), {})])
+            return cfg
+        paths = e.explore(t)
+
+        def post(p, tgt=tgt):
+            if p.kind != "return":
+                return z3.BoolVal(False)
+            stmts = [C3.to_real_ext(st) for bb in p.value.fields["bbs"] for st in bb.fields["statements"]]
+            aug = [st for st in stmts if isinstance(st, _ast.AugAssign)]
+            if len(aug) != 1:
+                return z3.BoolVal(False)
+            idx, tnode = [], aug[0].target
+            while isinstance(tnode, (_ast.Subscript, _ast.Attribute)):
+                if isinstance(tnode, _ast.Subscript):
+                    idx.append(tnode.slice)
+                tnode = tnode.value
+            ok = all(isinstance(x, (_ast.Name, _ast.Constant)) for x in idx)
+            # every temporary used as an index is assigned exactly once, before the statement
+            pos = stmts.index(aug[0])
+            for x in idx:
+                if isinstance(x, _ast.Name) and x.id.startswith("%tmp"):
+                    defs = [k for k, st in enumerate(stmts) if isinstance(st, _ast.Assign) and isinstance(st.targets[0], _ast.Name) and st.targets[0].id == x.id]
+                    ok = ok and len(defs) == 1 and defs[0] < pos
+            return z3.BoolVal(ok)
+        chk.prove_paths(f"visit_AugAssign[{tgt} += v]:every-index-of-the-target-is-a-name-or-constant-afterwards(bound-once-before-the-statement)", paths, post, func=f"{BM}:CFGBuilder.visit_AugAssign",
+                        replay=lambda m_: {"script": REPLAY_AUG, "input": {}})
+        n += 1
+    chk.record("visit_AugAssign:targets-explored", n >= 15, str(n), kind="reachability")
+    chk.use_engine(e)
+
+
+REPLAY_AUG = r'''
+import tempfile, importlib.util, os, sys, shutil
+src = """from guppylang import guppy
+from guppylang.std.builtins import array, result
+@guppy
+def nxt(c: array[int, 1]) -> int:
+    c[0] = c[0] + 1
+    return c[0] - 1
+@guppy
+def main() -> None:
+    c = array(0)
+    xs = array(10, 20, 30, 40)
+    xs[nxt(c) + 1] += 5
+    xs[2 * nxt(c)] += 7
+    result("calls", c[0])
+    result("x1", xs[1])
+    result("x2", xs[2])
+"""
+d = tempfile.mkdtemp(dir=os.environ.get("TMPDIR", "/var/tmp")); fn = os.path.join(d, "replay_c19a.py"); open(fn, "w").write(src)
+spec = importlib.util.spec_from_file_location("replay_c19a", fn); m = importlib.util.module_from_spec(spec); sys.modules["replay_c19a"] = m
+try:
+    spec.loader.exec_module(m)
+    try:
+        got = [list(x) for x in list(m.main.emulator(n_qubits=1).run().results)[0].entries]
+        want = [["calls", 2], ["x1", 25], ["x2", 37]]
+        out = {"violates": got != want, "observed": got, "required": want}
+    except Exception as ex:
+        out = {"violates": "anic" in str(ex), "observed": str(ex)[:200]}
+except Exception as ex:
+    out = {"violates": False, "error": repr(ex)[:300]}
 shutil.rmtree(d, ignore_errors=True)
 print(json.dumps(out))
 '''
